@@ -35,12 +35,14 @@ ASSUMPTIONS = [
     "finite-inside-the-hull under antialias=True with linear/cubic is claimed only for axis-aligned (separable) projections of hole-free grids "
     "with default region/shape/spacing (see finding C16-antialias-hull-shrink)",
     "project_grid coordinates stay within 2^14 grid steps of the origin per axis (absolute values up to 1.6e7): beyond ~1e6 steps the "
-    "un-normalised Delaunay triangulation inside Linear/Cubic loses data points (finding C16-interpolator-large-offset, reported, not generated)",
+    "un-normalised Delaunay triangulation inside Linear/Cubic loses data points (finding C16-interpolator-large-offset: exercised by the "
+    "separate deterministic stream project_grid-large-offset, whose reproduction part alone carries the finding key)",
 ]
 TRUSTED = ["harness/c16.py (generators, logging wrapper around the projection callable, observation of xarray objects as exact dyadics)"]
 
 F7_KEY = "F7-cubic-antialias-overshoot"
 SHRINK_KEY = "C16-antialias-hull-shrink"
+OFFSET_KEY = "C16-interpolator-large-offset"
 
 
 def dl(xs):
@@ -304,14 +306,20 @@ def make_grid(rnd, nprng, ny, nx, name, dims, holes, smooth):
     return da, east, north, v
 
 
-def pg_cases(vd, rnd, nprng, proj, separable, method, antialias, argkind, kind, shrink_stream=False):
+def pg_cases(vd, rnd, nprng, proj, separable, method, antialias, argkind, kind, shrink_stream=False, fixed=None):
     """run project_grid once; return the list of cases (main, range, inside) built from the observation"""
-    ny = rnd.randint(5, 8)
-    nx = ny + rnd.choice([1, 1, -1, 2]) if ny > 5 else ny + rnd.choice([1, 2])
-    name = rnd.choice(["foo", None, "scalars", "temperature"])
-    dims = rnd.choice([("northing", "easting"), ("lat", "lon"), ("y", "x")])
-    holes = rnd.choice([0, 0, 1, 2, 4])
-    da, east, north, v = make_grid(rnd, nprng, ny, nx, name, dims, holes, smooth=rnd.random() < 0.3)
+    if fixed is not None:       # a deterministic grid (large-offset stream): (east, north, values, name, dims)
+        import xarray as xr
+        east, north, v, name, dims = fixed
+        holes = int(np.isnan(v).sum())
+        da = xr.DataArray(v, coords={dims[0]: north, dims[1]: east}, dims=dims, name=name)
+    else:
+        ny = rnd.randint(5, 8)
+        nx = ny + rnd.choice([1, 1, -1, 2]) if ny > 5 else ny + rnd.choice([1, 2])
+        name = rnd.choice(["foo", None, "scalars", "temperature"])
+        dims = rnd.choice([("northing", "easting"), ("lat", "lon"), ("y", "x")])
+        holes = rnd.choice([0, 0, 1, 2, 4])
+        da, east, north, v = make_grid(rnd, nprng, ny, nx, name, dims, holes, smooth=rnd.random() < 0.3)
     if isinstance(proj, AffineFactory):
         proj = proj.make(east, north)
     # what the projection will produce (to choose sensible region / spacing arguments)
@@ -355,7 +363,7 @@ def pg_cases(vd, rnd, nprng, proj, separable, method, antialias, argkind, kind, 
     oname = out.name if isinstance(out.name, str) else repr(out.name)
     rtol = "(1 # (2 ^ 20))" if method == "cubic" else "(1 # (2 ^ 30))"
     aff = proj.affine
-    term = "c16_pg %s %s %s %s %s %s %s %s %s %s %s %s %s %s %s %s %s %s %s %s" % (
+    args = "%s %s %s %s %s %s %s %s %s %s %s %s %s %s %s %s %s %s %s %s" % (
         copt(name, cstr), dl(east), dl(north), orows(v), dl(le), dl(ln), dl(pe), dl(pn),
         copt(aff, lambda a: "(%s, %s, %s, %s)" % tuple(cD(x) for x in a)),
         copt(kwargs.get("region"), dl),
@@ -371,7 +379,16 @@ def pg_cases(vd, rnd, nprng, proj, separable, method, antialias, argkind, kind, 
              "g=xr.DataArray(v, coords={%r: %r, %r: %r}, dims=%r, name=%r); "
              "print(verde.project_grid(g, <projection>, method=%r, antialias=%r, **%r))"
              % (proj.name, inp["values"], dims[0], north.tolist(), dims[1], east.tolist(), list(dims), name, method, antialias, kwargs))
+    term = "c16_pg " + args
     cases = []
+    if fixed is not None:
+        # split the observation: everything but value reproduction must be fine; reproduction alone carries the finding key
+        ratio = float(max(np.abs(pe).max(), np.abs(pn).max()) /
+                      min(abs(aff[0]) * (east[1] - east[0]), abs(aff[2]) * (north[1] - north[0])))
+        inp["coord_to_step_ratio"] = ratio
+        cases.append(Case(dict(inp, part="main-without-reproduction"), obs, "c16_pg_norepro " + args, repro, kind))
+        cases.append(Case(dict(inp, part="reproduction"), obs, "c16_pg_repro " + args, repro, kind + "-reproduction"))
+        return cases
     if not shrink_stream:
         cases.append(Case(dict(inp, part="main"), obs, term, repro, kind))
         if antialias:
@@ -455,7 +472,37 @@ def generate(tier, seed):
                 nm = rnd.choice(["quadratic-mix", "rotation"])
                 cases += pg_cases(vd, rnd, nprng, Projection(nm, NONLINEAR[nm][0]), False, m, True, "none", "project_grid-shrink",
                                   shrink_stream=True)
+    # (7) Linear / Cubic triangulate un-normalised coordinates: far from the origin (max|coordinate| / grid step
+    #     >= ~1e6) data points drop out of the triangulation and values at data nodes are wrong (known finding);
+    #     deterministic cases, independent of the seed
+    cases += large_offset_cases(vd, 4 if quick else 10)
     return cases
+
+
+LARGE_OFFSET = [
+    # (shape, east step, north step, sx, ox, sy, oy, method, value seed)
+    ((5, 6), 1.0, 0.0625, 1.0, 0.0, 1.0, -1e6, "linear", 0),          # the witness of the report
+    ((5, 6), 1.0, 0.0625, 1.0, 0.0, 1.0, -1e6, "cubic", 0),
+    ((5, 6), 1.0, 0.0625, 1.0, 0.0, 1.0, -1e7, "linear", 0),
+    ((8, 10), 0.5, 0.25, 1000.0, 4096000.0, 0.25, 0.25, "cubic", 1),   # anisotropic: large easting, small northing step
+    ((6, 7), 0.25, 0.25, 1.0, 2.0 ** 22, 1.0, 0.0, "linear", 2),
+    ((6, 7), 0.25, 0.25, 1.0, 2.0 ** 22, 1.0, 0.0, "cubic", 2),
+    ((7, 6), 0.5, 0.5, 0.5, -1e7, 0.5, 1e7, "linear", 3),
+    ((7, 6), 0.5, 0.5, 0.5, -1e7, 0.5, 1e7, "cubic", 3),
+    ((5, 7), 1.0, 1.0, 1.0, 2.0 ** 20, 1.0, 2.0 ** 20, "linear", 4),    # ratio 2^20: may or may not be affected
+    ((5, 7), 0.75, 0.125, 2.0, 3e6, 4.0, -3e6, "cubic", 5),
+]
+
+
+def large_offset_cases(vd, count):
+    out = []
+    for (ny, nx), de, dn, sx, ox, sy, oy, method, vseed in LARGE_OFFSET[:count]:
+        east = de * np.arange(nx)
+        north = dn * np.arange(ny)
+        v = np.random.default_rng(vseed).normal(size=(ny, nx))
+        out += pg_cases(vd, None, None, affine_projection(sx, ox, sy, oy), True, method, False, "none", "project_grid-large-offset",
+                        fixed=(east, north, v, "v", ("northing", "easting")))
+    return out
 
 
 def finding_key(case):
@@ -464,6 +511,9 @@ def finding_key(case):
         return None
     if inp.get("part") == "range" and inp.get("method") == "cubic" and inp.get("antialias") is True:
         return F7_KEY
+    if (inp.get("part") == "reproduction" and inp.get("method") in ("linear", "cubic") and inp.get("antialias") is False
+            and str(inp.get("projection", "")).startswith("affine(") and inp.get("coord_to_step_ratio", 0) > 2.0 ** 17):
+        return OFFSET_KEY
     if inp.get("part") == "inside" and inp.get("antialias") is True and inp.get("method") in ("linear", "cubic"):
         return SHRINK_KEY
     return None
